@@ -175,6 +175,7 @@ type opPlan struct {
 	Ref     string // git-checkout target
 	SkipEnv bool   // git-checkout under GIT_LFS_SKIP_SMUDGE=1
 	Mutate  bool
+	Subdir  bool // run with cwd = a sub-directory of the working tree (no patterns on the command line)
 }
 
 type plan struct {
@@ -220,11 +221,11 @@ func ptrPaths(ps []pinfo) []string {
 	return out
 }
 
-func optPats(r *rand.Rand, paths []string, probSet, probEmpty int) *[]pat {
+func optPats(r *rand.Rand, paths []string, probSet, probEmpty, force int) *[]pat {
 	k := r.Intn(100)
 	switch {
 	case k < probSet:
-		l := genPatterns(r, 1+r.Intn(2), paths)
+		l := genPatterns(r, 1+r.Intn(2), paths, force)
 		return &l
 	case k < probSet+probEmpty:
 		l := []pat{}
@@ -240,16 +241,18 @@ func genPlan(r *rand.Rand, src *source, k int) plan {
 	p.URLVia = []string{"dash-c", "clone-config", "home"}[r.Intn(3)]
 	p.Driver = []string{"process", "process", "smudge"}[r.Intn(3)]
 	p.CfgVia = []string{"home", "dash-c", "clone-config"}[r.Intn(3)]
+	// rotation of the pattern form forced into each context (configuration, -I/-X, checkout arguments)
+	force := src.idx + k/8
 	cfgFilters := func(prob int) {
 		if r.Intn(100) < prob {
 			switch r.Intn(3) {
 			case 0:
-				p.CfgInc = genPatterns(r, 1+r.Intn(2), paths)
+				p.CfgInc = genPatterns(r, 1+r.Intn(2), paths, force)
 			case 1:
-				p.CfgExc = genPatterns(r, 1+r.Intn(2), paths)
+				p.CfgExc = genPatterns(r, 1+r.Intn(2), paths, force)
 			default:
-				p.CfgInc = genPatterns(r, 1+r.Intn(2), paths)
-				p.CfgExc = genPatterns(r, 1, paths)
+				p.CfgInc = genPatterns(r, 1+r.Intn(2), paths, force)
+				p.CfgExc = genPatterns(r, 1, paths, -1)
 			}
 		}
 	}
@@ -258,7 +261,7 @@ func genPlan(r *rand.Rand, src *source, k int) plan {
 		return opPlan{Kind: "git-checkout", Ref: other.Name, SkipEnv: r.Intn(4) == 0}
 	}
 	fetchOp := func() opPlan {
-		o := opPlan{Kind: "lfs-fetch", Inc: optPats(r, paths, 40, 8), Exc: optPats(r, paths, 30, 8)}
+		o := opPlan{Kind: "lfs-fetch", Inc: optPats(r, paths, 40, 8, force+3), Exc: optPats(r, paths, 30, 8, force+5)}
 		switch r.Intn(3) {
 		case 1:
 			o.Refs = []string{other.revName()}
@@ -268,17 +271,24 @@ func genPlan(r *rand.Rand, src *source, k int) plan {
 		return o
 	}
 	pullOp := func(mut bool, probSet int) opPlan {
-		return opPlan{Kind: "lfs-pull", Inc: optPats(r, paths, probSet, 8), Exc: optPats(r, paths, probSet*3/4, 8), Mutate: mut}
+		o := opPlan{Kind: "lfs-pull", Inc: optPats(r, paths, probSet, 8, force+7), Exc: optPats(r, paths, probSet*3/4, 8, force+9), Mutate: mut}
+		if o.Inc == nil && o.Exc == nil && r.Intn(3) == 0 {
+			o.Subdir = true
+		}
+		return o
 	}
+	forceArgs := false
 	lfsCheckout := func(mut bool) opPlan {
 		o := opPlan{Kind: "lfs-checkout", Mutate: mut}
-		if r.Intn(2) == 0 {
-			for _, c := range genPatterns(r, 1+r.Intn(2), paths) {
+		if forceArgs || r.Intn(2) == 0 {
+			for _, c := range genPatterns(r, 1+r.Intn(2), paths, force) {
 				// arguments are path specs: a leading "/" would be an absolute file name
 				if !strings.HasPrefix(c.Text, "/") {
 					o.Paths = append(o.Paths, c)
 				}
 			}
+		} else if r.Intn(3) == 0 {
+			o.Subdir = true
 		}
 		return o
 	}
@@ -301,7 +311,9 @@ func genPlan(r *rand.Rand, src *source, k int) plan {
 	case 1: // skip-smudge clone, fetch, lfs checkout
 		p.Skip = true
 		cfgFilters(25)
+		forceArgs = true
 		p.Ops = append(p.Ops, fetchOp(), lfsCheckout(true))
+		forceArgs = false
 		if r.Intn(2) == 0 {
 			p.Ops = append(p.Ops, lfsCheckout(false))
 		}
@@ -421,6 +433,9 @@ func optClass(o opPlan) string {
 	}
 	if o.Mutate {
 		s += "-mut"
+	}
+	if o.Subdir {
+		s += "-subdir"
 	}
 	return s
 }
